@@ -364,3 +364,214 @@ Print Assumptions C15_string_refs_valid.
 Print Assumptions C15_order_refuted_strings.
 Print Assumptions C15_cutoff_order_refuted_strings.
 Print Assumptions C15_cutoff_conflict_refuted_strings.
+
+(** ---- THE ORDER THEOREM THROUGH THE CUT MODEL AND THROUGH THE PARSER (Stereo/EzSortMono.v, EzCut.v, EzStringCut.v).
+    No hypothesis on graphs (pair_wf / same_substituents) any more: the molecule is a cut of Compose's model (any atoms,
+    bonds, parts, part order), the marks are the `ez_isomer_class` attributes of the fragment templates. *)
+From CGV Require Import Resolve.SortProofs Compose.CutPos Compose.OrderIndep Compose.PartPerm Compose.ComposeFlat
+     Frag.NDict Frag.FragText Frag.FragProofs Frag.SmilesParse Frag.SmilesSpec Frag.Template Frag.TemplateFinal Frag.TemplateGraph Frag.TemplateCompose
+     Reader.ReaderImpl Stereo.EzSortMono Stereo.EzCut Stereo.EzStringCut Stereo.EzStringExamples.
+
+(** sort_nodes_by_attr keeps the key order inside one fragment, and lists the fragments in fragid order *)
+Theorem C15_sort_mono : forall g m a b o, sort_mapping g = Ok m -> NoDup (node_keys g) ->
+  map fst (get_node_attributes g (S "fragid")) = node_keys g ->
+  node_get g a (S "fragid") = Some (VList [VInt o]) -> node_get g b (S "fragid") = Some (VList [VInt o]) ->
+  (a <? b) = (map_get m a <? map_get m b).
+Proof. exact sort_mono. Qed.
+Theorem C15_sort_mono_frag : forall g m a b oa ob, sort_mapping g = Ok m -> NoDup (node_keys g) ->
+  map fst (get_node_attributes g (S "fragid")) = node_keys g ->
+  node_get g a (S "fragid") = Some (VList [VInt oa]) -> node_get g b (S "fragid") = Some (VList [VInt ob]) ->
+  oa < ob -> map_get m a < map_get m b.
+Proof. exact sort_mono_frag. Qed.
+
+(** the class resolve() stores, read off the cut: every new tuple is about four atoms lx - ax = ay - ly of the cut, and when
+    neither ligand is cut off from its anchor its class is the geometric class of the marks as written - or the opposite
+    when the ligand of the second-enumerated anchor is written before it (open class second_anchor_ligand_lower) *)
+Theorem C15_returned_class_geom : forall C, wf_cut C -> forall fd, templates_ok C fd -> wf_dict fd -> forall B, is_base C B ->
+  heavy_payload C -> numeric_orders C -> forall tok,
+  (forall name xs T i x n, In (name, xs) (c_parts C) -> fd_get name fd = Some T ->
+     nth_error xs i = Some x -> gfind (Z.of_nat i) T = Some n -> aget ezk (na n) = tok x) ->
+  forall prev fo, next_meta prev = B -> resolve_step_full true true fd prev (Some (fo_m3 fo)) = Ok fo ->
+  exists m, sort_mapping (fo_m4 fo) = Ok m /\
+    SortGraphProofs.inj_on (map_get m) (node_keys (fo_m4 fo)) /\
+    (forall x, In x (flat C) -> In (phi C x) (node_keys (fo_m4 fo))) /\
+    forall k v, is_new (fo_m5 fo) (fo_mol fo) k v ->
+    exists lx ax ay ly tx ty c,
+      In lx (flat C) /\ In ax (flat C) /\ In ay (flat C) /\ In ly (flat C) /\
+      tok lx = Some tx /\ tok ly = Some ty /\ is_tok tx = true /\ is_tok ty = true /\
+      bonded C ax lx = true /\ bonded C ay ly = true /\ bonded C ax ay = true /\ is_two (result_order C ax ay) = true /\
+      lx <> ax /\ lx <> ay /\ ly <> ay /\ ly <> ax /\
+      (v = ez_tuple (map_get m (phi C lx)) (map_get m (phi C ax)) (map_get m (phi C ay)) (map_get m (phi C ly)) c \/
+       v = ez_tuple (map_get m (phi C ly)) (map_get m (phi C ay)) (map_get m (phi C ax)) (map_get m (phi C lx)) c) /\
+      (owner C lx = owner C ax -> owner C ly = owner C ay ->
+         c = class_val (if wb C ly ay then negb (geom C lx ax ay ly tx ty) else geom C lx ax ay ly tx ty)).
+Proof. exact returned_class_geom. Qed.
+
+(** OUTSIDE THE THREE OPEN CLASSES (no ligand cut off, both ligands written after their anchors): the geometric class *)
+Theorem C15_written_after_class : forall C, wf_cut C -> forall fd, templates_ok C fd -> wf_dict fd -> forall B, is_base C B ->
+  heavy_payload C -> numeric_orders C -> forall tok,
+  (forall name xs T i x n, In (name, xs) (c_parts C) -> fd_get name fd = Some T ->
+     nth_error xs i = Some x -> gfind (Z.of_nat i) T = Some n -> aget ezk (na n) = tok x) ->
+  forall prev fo, next_meta prev = B -> resolve_step_full true true fd prev (Some (fo_m3 fo)) = Ok fo ->
+  exists m, sort_mapping (fo_m4 fo) = Ok m /\
+    forall lx ax ay ly c k, In lx (flat C) -> In ax (flat C) -> In ay (flat C) -> In ly (flat C) ->
+      is_new (fo_m5 fo) (fo_mol fo) k
+        (ez_tuple (map_get m (phi C lx)) (map_get m (phi C ax)) (map_get m (phi C ay)) (map_get m (phi C ly)) c) ->
+      owner C lx = owner C ax -> owner C ly = owner C ay -> wb C lx ax = false -> wb C ly ay = false ->
+      exists tx ty, tok lx = Some tx /\ tok ly = Some ty /\ is_tok tx = true /\ is_tok ty = true /\
+        c = class_val (geom_cis false tx false ty).
+Proof. exact written_after_class. Qed.
+
+(** ez_order_invariant, outside the three open classes, for EVERY molecule and cut: two resolve() calls on base graphs that
+    list the parts of the cut in different orders store the same class for the same four atoms *)
+Theorem C15_order_invariant_cut : forall C1 C2 fd B1 B2 tok prev1 prev2 fo1 fo2,
+  wf_cut C1 -> pperm C1 C2 -> templates_ok C1 fd -> wf_dict fd -> is_base C1 B1 -> is_base C2 B2 ->
+  heavy_payload C1 -> numeric_orders C1 ->
+  (forall name xs T i x n, In (name, xs) (c_parts C1) -> fd_get name fd = Some T ->
+     nth_error xs i = Some x -> gfind (Z.of_nat i) T = Some n -> aget ezk (na n) = tok x) ->
+  next_meta prev1 = B1 -> next_meta prev2 = B2 ->
+  resolve_step_full true true fd prev1 (Some (fo_m3 fo1)) = Ok fo1 -> resolve_step_full true true fd prev2 (Some (fo_m3 fo2)) = Ok fo2 ->
+  exists m1 m2, sort_mapping (fo_m4 fo1) = Ok m1 /\ sort_mapping (fo_m4 fo2) = Ok m2 /\
+    forall lx ax ay ly c1 c2 k1 k2, In lx (flat C1) -> In ax (flat C1) -> In ay (flat C1) -> In ly (flat C1) ->
+      owner C1 lx = owner C1 ax -> owner C1 ly = owner C1 ay -> wb C1 lx ax = false -> wb C1 ly ay = false ->
+      is_new (fo_m5 fo1) (fo_mol fo1) k1
+        (ez_tuple (map_get m1 (phi C1 lx)) (map_get m1 (phi C1 ax)) (map_get m1 (phi C1 ay)) (map_get m1 (phi C1 ly)) c1) ->
+      is_new (fo_m5 fo2) (fo_mol fo2) k2
+        (ez_tuple (map_get m2 (phi C2 lx)) (map_get m2 (phi C2 ax)) (map_get m2 (phi C2 ay)) (map_get m2 (phi C2 ly)) c2) ->
+      c1 = c2.
+Proof. exact order_invariant_cut. Qed.
+
+(** ... THROUGH THE PARSER: the fragment read from a text that renders a token list is the strip component's final template,
+    a template of every cut that agrees with the token-level reading; the slash token of its node i is the mark of atom i *)
+Theorem C15_reading_template : forall fo C name xs toks dc ez T0, frag_reading fo C name xs toks dc ez T0 ->
+  marked_template fo name (render (decorate toks dc)) = Ok (tmpl_graph T0) /\ is_template C name xs (tmpl_graph T0) /\
+  forall i x n, nth_error xs i = Some x -> gfind (Z.of_nat i) (tmpl_graph T0) = Some n -> aget ezk (na n) = tok_of_ez ez i.
+Proof. exact reading_template. Qed.
+(** what resolve_string computes for "{base}.{#A=tA,#B=tB}" is one all-atom step on the reader's base graph and the two
+    templates (driver: find_blocks, read_fragments = fragment_split + marked_template) *)
+Theorem C15_string_is_step : forall fo (base : pystr) mol tA tB TA TB o,
+  base <> [] -> ~ In "}"%char base -> read_cgsmiles fo ("{"%char :: base ++ ["}"%char]) = Ok mol ->
+  ~ In ","%char tA -> ~ In ","%char tB -> ~ In "}"%char tA -> ~ In "}"%char tB ->
+  marked_template fo (S "A") tA = Ok TA -> marked_template fo (S "B") tB = Ok TB ->
+  resolve_string fo ("{"%char :: base ++ "}"%char :: "."%char :: block2 tA tB) = Ok o ->
+  resolve_step_full true true [(S "A", TA); (S "B", TB)] mol (Some (fo_m3 o)) = Ok o.
+Proof. exact string_is_step. Qed.
+(** the order theorem on STRINGS: {[#A][#B]}.{#A=tA,#B=tB} against {[#B][#A]}.{#A=tA,#B=tB}, the texts renderings of token
+    lists of any size and shape (chains of any length on the substituents, branches, rings), the cut any cut that agrees
+    with their token-level reading *)
+Theorem C15_order_invariant_strings : forall fo C1 xsA xsB tokA tokB dcA dcB ezA ezB TA0 TB0 o1 o2,
+  let tA := render (decorate tokA dcA) in let tB := render (decorate tokB dcB) in let C2 := swap_parts C1 in
+  frag_reading fo C1 nA xsA tokA dcA ezA TA0 -> frag_reading fo C1 nB xsB tokB dcB ezB TB0 ->
+  c_parts C1 = [(nA, xsA); (nB, xsB)] -> wf_cut C1 -> heavy_payload C1 -> numeric_orders C1 ->
+  is_base C1 (next_meta baseAB) -> is_base C2 (next_meta baseBA) ->
+  ~ In ","%char tA /\ ~ In ","%char tB /\ ~ In "}"%char tA /\ ~ In "}"%char tB ->
+  resolve_string fo (sAB tA tB) = Ok o1 -> resolve_string fo (sBA tA tB) = Ok o2 ->
+  exists m1 m2, sort_mapping (fo_m4 o1) = Ok m1 /\ sort_mapping (fo_m4 o2) = Ok m2 /\
+    forall lx ax ay ly c1 c2 k1 k2, In lx (flat C1) -> In ax (flat C1) -> In ay (flat C1) -> In ly (flat C1) ->
+      owner C1 lx = owner C1 ax -> owner C1 ly = owner C1 ay -> wb C1 lx ax = false -> wb C1 ly ay = false ->
+      is_new (fo_m5 o1) (fo_mol o1) k1
+        (ez_tuple (map_get m1 (phi C1 lx)) (map_get m1 (phi C1 ax)) (map_get m1 (phi C1 ay)) (map_get m1 (phi C1 ly)) c1) ->
+      is_new (fo_m5 o2) (fo_mol o2) k2
+        (ez_tuple (map_get m2 (phi C2 lx)) (map_get m2 (phi C2 ax)) (map_get m2 (phi C2 ay)) (map_get m2 (phi C2 ly)) c2) ->
+      c1 = c2.
+Proof. exact order_invariant_strings. Qed.
+(** non-vacuity (all hypotheses of C15_order_invariant_strings, hence of C15_order_invariant_cut / C15_written_after_class /
+    C15_returned_class_geom / C15_reading_template / C15_string_is_step, hold; both strings resolve and store `cis`) *)
+Example C15_order_invariant_strings_nonvacuous :
+  to_string (sAB tA1 tB2) = "{[#A][#B]}.{#A=[$]=C(Cl)/CC,#B=[$]=C(Br)/CCC}"%string /\
+  to_string (sBA tA1 tB2) = "{[#B][#A]}.{#A=[$]=C(Cl)/CC,#B=[$]=C(Br)/CCC}"%string /\
+  frag_reading EzStringExamples.fo0 C12 nA (keysX 0 1) (toksX "Cl" 1) (dcl 1) ez02 TA1 /\
+  frag_reading EzStringExamples.fo0 C12 nB (keysX 1 2) (toksX "Br" 2) (dcl 2) ez02 TB2 /\
+  c_parts C12 = [(nA, keysX 0 1); (nB, keysX 1 2)] /\ wf_cut C12 /\ heavy_payload C12 /\ numeric_orders C12 /\
+  is_base C12 (next_meta baseAB) /\ is_base (swap_parts C12) (next_meta baseBA) /\
+  exists o1 o2, resolve_string EzStringExamples.fo0 (sAB tA1 tB2) = Ok o1 /\ resolve_string EzStringExamples.fo0 (sBA tA1 tB2) = Ok o2 /\
+    let m1 := mapping_of_out o1 in let m2 := mapping_of_out o2 in let C2 := swap_parts C12 in
+    sort_mapping (fo_m4 o1) = Ok m1 /\ sort_mapping (fo_m4 o2) = Ok m2 /\
+    owner C12 4 = owner C12 0 /\ owner C12 5 = owner C12 1 /\ wb C12 4 0 = false /\ wb C12 5 1 = false /\
+    is_new (fo_m5 o1) (fo_mol o1) (map_get m1 (phi C12 4))
+      (ez_tuple (map_get m1 (phi C12 4)) (map_get m1 (phi C12 0)) (map_get m1 (phi C12 1)) (map_get m1 (phi C12 5)) v_cis) /\
+    is_new (fo_m5 o2) (fo_mol o2) (map_get m2 (phi C2 4))
+      (ez_tuple (map_get m2 (phi C2 4)) (map_get m2 (phi C2 0)) (map_get m2 (phi C2 1)) (map_get m2 (phi C2 5)) v_cis).
+Proof. exact order_invariant_strings_nonvacuous. Qed.
+Example C15_sort_mono_nonvacuous :
+  (* F0 C1 | C2 with fragment 0's hydrogen appended as key 3: sorted F0 C1 H2 | C3 *)
+  let nd := fun k fid => {| nk := k; na := [(S "fragid", VList [VInt fid])]; nadj := [] |} in
+  let g := [nd 0 0; nd 1 0; nd 2 1; nd 3 0] in
+  exists m, sort_mapping g = Ok m /\ NoDup (node_keys g) /\ map fst (get_node_attributes g (S "fragid")) = node_keys g /\
+    (1 <? 3) = (map_get m 1 <? map_get m 3) /\ map_get m 3 < map_get m 2.
+Proof.
+  cbv zeta. eexists. split; [vm_compute; reflexivity|]. split; [vm_compute; repeat constructor; cbn; intuition discriminate|].
+  split; vm_compute; auto.
+Qed.
+
+
+(** ---- chiral_stays FROM THE TEXT (Stereo/EzChiralText.v; instance of the Dialect component's text theorem for the key `chiral`
+    = dialect key `x` of a fragment annotation, `[C;x=R]`): the label written on the i-th atom token of the text of fragment
+    `name` is the `chiral` attribute of every copy of that atom in the returned all-atom graph, whatever the cut placement and
+    part order; an atom whose token carries no such key has none.  Chain: strip_bonding_descriptors (strip_correct), Hydro's
+    read_fragment_post on the transcript g0 of pysmiles.read_smiles(clean text), PipelineFull over Compose's cut model, any
+    aromaticity transcript Hydro's contract allows. *)
+From CGV Require Import Dialect.DialectDefs Dialect.FragAnnot Dialect.TemplateAnnot Dialect.TextAnnot Hydro.Fragments Frag.StripImpl Stereo.EzChiralText.
+Theorem C15_chiral_text_reaches_returned_graph : forall fo name toks dc,
+  FragText.wf toks dc = true -> excluded toks dc = false ->
+  forall clean desc ez ann, strip_bonding_descriptors fo (FragText.render (decorate toks dc)) = Ok (clean, desc, ez, ann) ->
+  forall g0 bonding ezl T, NoDup (node_keys g0) -> read_fragment_post g0 name bonding ezl (ann_list ann) = Ok T ->
+  forall C, wf_cut C -> forall fd, templates_ok C fd -> wf_dict fd -> fd_get name fd = Some T ->
+  forall B, is_base C B ->
+  (forall x, In x (flat C) ->
+    (exists e, aget (S "element") (payload C x) = Some e) /\ (exists q, aget (S "charge") (payload C x) = Some q) /\
+    (exists h, aget (S "hcount") (payload C x) = Some (VInt h)) /\ Hydrogens.is_H (payload C x) = false) ->
+  forall prev g1 fo_, meta_of prev = B -> resolve_step_full true true fd prev (Some g1) = Ok fo_ -> ReturnedCar.dicts (fo_m3 fo_) ->
+  exists m, sort_mapping (fo_m4 fo_) = Ok m /\ SortGraphProofs.inj_on (map_get m) (node_keys (fo_m4 fo_)) /\
+    (forall pre body annot post a v n0,
+       decorate toks dc = pre ++ ITok (TBracket body annot) :: post ->
+       fragment_node_parser fo (annot_text annot) = Ok a -> In (S "chiral", v) a ->
+       gfind (Z.of_nat (atoms_of pre)) g0 = Some n0 ->
+       forall p xs x, nth_error (c_parts C) p = Some (name, xs) -> nth_error xs (atoms_of pre) = Some x ->
+         node_get (fo_mol fo_) (map_get m (phi C x)) (S "chiral") = Some v) /\
+    (forall j n,
+       gfind (Z.of_nat j) T = Some n ->
+       has_node g0 (Z.of_nat j) = true -> node_get g0 (Z.of_nat j) (S "chiral") = None ->
+       (forall a, nd_get j ann = Some a -> aget (S "chiral") a = None /\ aget (S "element") a = None) ->
+       (nd_get j ann <> None \/ node_get g0 (Z.of_nat j) (S "element") <> Some (VStr (S "H"))) ->
+       forall p xs y, nth_error (c_parts C) p = Some (name, xs) -> nth_error xs j = Some y ->
+         node_get (fo_mol fo_) (map_get m (phi C y)) (S "chiral") = None).
+Proof. exact chiral_text_reaches_returned_graph. Qed.
+Theorem C15_parse_x_R : forall fo, exists a, fragment_node_parser fo (S "x=R") = Ok a /\ In (S "chiral", VStr (S "R")) a.
+Proof. exact parse_x_R. Qed.
+(** non-vacuity: {[#A][#A]}.{#A=C[C;x=R][$]}: every hypothesis holds, the step returns, the label is at the returned keys 1 and 8
+    (the two copies of atom 1) and nowhere else among the heavy atoms *)
+Example C15_chiral_text_nonvacuous :
+  to_string (FragText.render (decorate cx_toks cx_dc)) = "C[C;x=R][$]"%string /\
+  FragText.wf cx_toks cx_dc = true /\ excluded cx_toks cx_dc = false /\
+  (exists clean desc ez, strip_bonding_descriptors cx_fo (FragText.render (decorate cx_toks cx_dc)) = Ok (clean, desc, ez, cx_ann)) /\
+  NoDup (node_keys cx_g0) /\ read_fragment_post cx_g0 (S "A") [(1, VList [VStr (S "$1")])] [] (ann_list cx_ann) = Ok cx_T /\
+  wf_cut cx_cut /\ templates_ok cx_cut cx_fd /\ wf_dict cx_fd /\ fd_get (S "A") cx_fd = Some cx_T /\ is_base cx_cut (base_of cx_cut) /\
+  (forall x, In x (flat cx_cut) ->
+     (exists e, aget (S "element") (payload cx_cut x) = Some e) /\ (exists q, aget (S "charge") (payload cx_cut x) = Some q) /\
+     (exists h, aget (S "hcount") (payload cx_cut x) = Some (VInt h)) /\ Hydrogens.is_H (payload cx_cut x) = false) /\
+  meta_of (base_of cx_cut) = base_of cx_cut /\
+  (exists a, decorate cx_toks cx_dc = [ITok (TAtom (S "C"))] ++ ITok (TBracket (S "C") (Some (S "x=R"))) :: [IDesc {| d_kind := "$"%char; d_label := []; d_sym := None |}] /\
+             fragment_node_parser cx_fo (annot_text (Some (S "x=R"))) = Ok a /\ In (S "chiral", VStr (S "R")) a /\
+             atoms_of [ITok (TAtom (S "C"))] = 1%nat) /\
+  match cx_m3 with
+  | Some m3 =>
+      ReturnedExample.dictsb m3 = true /\
+      match resolve_step_full true true cx_fd (base_of cx_cut) (Some m3) with
+      | Ok fo => map (fun k => node_get (fo_mol fo) k (S "chiral")) [0; 1; 7; 8] = [None; Some (VStr (S "R")); None; Some (VStr (S "R"))]
+      | Err _ => False
+      end
+  | None => False
+  end.
+Proof. exact chiral_text_nonvacuous. Qed.
+
+Print Assumptions C15_sort_mono.
+Print Assumptions C15_sort_mono_frag.
+Print Assumptions C15_returned_class_geom.
+Print Assumptions C15_written_after_class.
+Print Assumptions C15_order_invariant_cut.
+Print Assumptions C15_reading_template.
+Print Assumptions C15_string_is_step.
+Print Assumptions C15_order_invariant_strings.
+Print Assumptions C15_chiral_text_reaches_returned_graph.
+Print Assumptions C15_parse_x_R.
